@@ -171,6 +171,16 @@ def gen(rng, tier):
     # sign of the exact result), carries that overflow, and the values just inside
     for c in range_edge_cases(rng, 200 * n):
         yield c
+    # (ii-d) operands carrying a precision at the top of the uint32 range (their own precision is not used by Add/Sub,
+    #        but helper routines that look at it must not wrap)
+    for _ in range(60 * n):
+        a, b = common.rand_coeff(rng, 30), common.rand_coeff(rng, 30)
+        e = rng.randint(-10, 10)
+        hp = lambda: rng.choice([2**32 - 1, 2**32 - 2, 2**32 - 17, 2**32 - 18, 2**31 + 1])
+        x = fin(a, e, neg=rng.randint(0, 1), prec=hp(), mode=rng.randint(0, 5))
+        y = fin(b, e + ndigits(a) - ndigits(b), neg=rng.randint(0, 1), prec=rng.choice([hp(), None]), mode=rng.randint(0, 5))
+        z = recv(rng, prec=rng.choice([1, 5, 19, 34, 60]))
+        yield dict(family="extreme-operand-precision", vars=[z, x, y], ops=["%s 0 1 2" % rng.choice(["Add", "Sub", "Add", "Sub", "Mul", "Quo"])])
     # (ii-c) operands that agree on the leading word and differ at the extremes of the word range in lower words
     EXT = [0, 1, 2**63 - 1, 2**63, 2**63 + 1, B - 1, B - 2, 5 * 10**18, 10**18]
     for _ in range(120 * n):
@@ -221,6 +231,29 @@ def gen(rng, tier):
         shape = rng.choice(["0 1 2", "0 2 1", "1 1 2", "2 1 2", "0 1 1", "1 1 1", "2 2 1"])
         opn = rng.choice(["Mul", "Quo"])
         yield dict(family="mulquo", vars=[z, x, y], ops=["%s %s" % (opn, shape)])
+    # (iii-b) Mul / Quo with the result exponent exactly at, just inside and just outside the range
+    for _ in range(160 * n):
+        MINE, MAXE = -2**31, 2**31 - 1
+        a, b = common.rand_coeff(rng, rng.choice([1, 3, 20, 40])), common.rand_coeff(rng, rng.choice([1, 3, 20, 40]))
+        na, nb = ndigits(a), ndigits(b)
+        opn = rng.choice(["Mul", "Quo"])
+        tgt = rng.choice([MAXE, MAXE, MAXE + 1, MAXE - 1, MINE, MINE, MINE - 1, MINE + 1])
+        # mantissa fractions ma = a/10^na, mb = b/10^nb
+        if opn == "Mul":
+            adj = -1 if a * b * 10 < 10 ** (na + nb) else 0          # exp(x*y) = ex + ey + adj
+            exx = tgt // 2 + rng.randint(-1000, 1000)
+            exy = tgt - adj - exx
+        else:
+            adj = 1 if a * 10 ** nb >= b * 10 ** na else 0           # exp(x/y) = ex - ey + adj
+            exy = rng.randint(-1000, 1000) - tgt // 2
+            exx = tgt - adj + exy
+        if not (MINE <= exx <= MAXE and MINE <= exy <= MAXE):
+            continue
+        x = fin(a, exx - na, neg=rng.randint(0, 1), mode=rng.randint(0, 5), pad=rng.choice([0, 0, 1]))
+        y = fin(b, exy - nb, neg=rng.randint(0, 1), mode=rng.randint(0, 5))
+        z = recv(rng, prec=rng.choice(PRECS + [0]))
+        shape = rng.choice(["0 1 2", "0 1 2", "1 1 2", "2 1 2"])
+        yield dict(family="mulquo-range-edge", vars=[z, x, y], ops=["%s %s" % (opn, shape)])
     # (iv) large operands (multi-word paths)
     for _ in range(40 * n):
         nd1, nd2 = rng.choice([200, 400, 700, 1500]), rng.choice([100, 400, 900])
